@@ -167,6 +167,12 @@ fn main() {
             println!("{} {}", v["k"], v.get("msg").cloned().unwrap_or(json!("")));
             for (i, l) in v["lines"].as_array().unwrap().iter().enumerate() {
                 println!("{:3}|{}|", v["sw"][i], concretize::cells_to_string(l));
+                // with VERIF_SHOW_TAGS: the distinct annotation vectors of the line, in order of appearance
+                if std::env::var("VERIF_SHOW_TAGS").is_ok() {
+                    let mut seen: Vec<String> = vec![];
+                    for c in l.as_array().map(|a| a.as_slice()).unwrap_or(&[]) { if let Some(t) = c.get(2) { let s = t.to_string(); if seen.last() != Some(&s) { seen.push(s); } } }
+                    println!("      tags: {}", seen.join(" "));
+                }
             }
             0
         }
